@@ -249,3 +249,8 @@ def depths(obs):
                 todo.append((c["vid"], k + 1))
         todo.sort(key=lambda x: x[1])
     return d
+
+
+def coqrun_build():
+    from . import coqrun
+    return coqrun.BUILD
